@@ -62,7 +62,7 @@ impl Property for C09 {
     fn cases(&self, tier: Tier) -> u32 {
         match tier {
             Tier::Quick => 8_000,
-            Tier::Thorough => 30_000,
+            Tier::Thorough => 300_000,
         }
     }
 
